@@ -35,9 +35,15 @@ func writeReplay(u *Universe, st *SpecTables, d *Discharger, id string, o *Oblig
 		sb.WriteString("---- replay on the real code ----\n" + rep + "\n")
 		confirmed = ok
 	} else if o.Kind == "g1" {
-		rep, ok := probeProblem(st, repo, "/"+o.Where+" "+o.Note, id)
+		rep, ok := probeProblem(u, st, repo, "/"+o.Where+" "+o.Note, id)
 		sb.WriteString("---- replay on the real code ----\n" + rep + "\n")
 		confirmed = ok
+		if !ok {
+			// package-level state that a sequential probe does not expose: results of concurrent use against sequential use
+			rep, ok = raceReplay(repo)
+			sb.WriteString(rep + "\n")
+			confirmed = ok
+		}
 	} else if o.Kind == "frame" && o.Decls != nil && o.Decls.Fn != nil && o.Decls.Fn.Pkg != nil {
 		rep, ok := purityProbe(repo, pkgDirOf(o.Decls.Fn))
 		sb.WriteString("---- replay on the real code ----\n" + rep + "\n")
@@ -55,6 +61,31 @@ func writeReplay(u *Universe, st *SpecTables, d *Discharger, id string, o *Oblig
 		sb.WriteString(rep)
 		sb.WriteString("\n")
 		confirmed = ok
+	}
+	if !confirmed && o.Decls != nil && o.Decls.Fn != nil && o.Decls.Fn.Pkg != nil && scoreProperty[id] {
+		// no failing input from the obligation's own replay: look for one with the probes of its package
+		switch pkgDirOf(o.Decls.Fn) {
+		case "v3/metric":
+			rep, ok := scoreProbe(u, st, repo)
+			sb.WriteString("---- probe ----\n" + rep + "\n")
+			confirmed = ok
+		case "v2/metric":
+			rep, ok := v2ScoreProbe(u, st, repo)
+			sb.WriteString("---- probe ----\n" + rep + "\n")
+			confirmed = ok
+		}
+	}
+	if !confirmed && id == "C18" {
+		rep, ok := namesProbe(u, repo)
+		sb.WriteString("---- probe ----\n" + rep + "\n")
+		confirmed = ok
+	}
+	if !confirmed && id == "C12" && o.Decls != nil && o.Decls.Fn != nil && o.Decls.Fn.Pkg != nil {
+		if pd := pkgDirOf(o.Decls.Fn); pd == "v3/metric" || pd == "v2/metric" {
+			rep, ok := robustProbe(repo, pd)
+			sb.WriteString("---- probe ----\n" + rep + "\n")
+			confirmed = ok
+		}
 	}
 	if o.Model != "" {
 		sb.WriteString("---- solver output (model) ----\n")
@@ -100,7 +131,7 @@ func replayCmd(args []string) int {
 
 // probeProblem: a generation problem (construct outside the subset, unbound contract, ...) has no model; the generic
 // probes of the package it names are run to look for a failing input.
-func probeProblem(st *SpecTables, repo, problem string, id string) (string, bool) {
+func probeProblem(u *Universe, st *SpecTables, repo, problem string, id string) (string, bool) {
 	var sb strings.Builder
 	hit := false
 	if id == "C16" {
@@ -118,6 +149,26 @@ func probeProblem(st *SpecTables, repo, problem string, id string) (string, bool
 		r, ok := purityProbe(repo, dir)
 		sb.WriteString(r)
 		hit = hit || ok
+		if dir != "v3/report" && !hit && id == "C12" {
+			r, ok := robustProbe(repo, dir)
+			sb.WriteString(r)
+			hit = hit || ok
+		}
+		if dir == "v3/metric" && !hit && scoreProperty[id] {
+			r, ok := scoreProbe(u, st, repo)
+			sb.WriteString(r)
+			hit = hit || ok
+		}
+		if dir == "v2/metric" && !hit && scoreProperty[id] {
+			r, ok := v2ScoreProbe(u, st, repo)
+			sb.WriteString(r)
+			hit = hit || ok
+		}
+		if alias == "nam." && !hit {
+			r, ok := namesProbe(u, repo)
+			sb.WriteString(r)
+			hit = hit || ok
+		}
 		if dir == "v3/report" {
 			r, ok := templateProbe(repo)
 			sb.WriteString(r)
@@ -127,5 +178,15 @@ func probeProblem(st *SpecTables, repo, problem string, id string) (string, bool
 			hit = hit || ok
 		}
 	}
+	if !hit && id == "C15" {
+		// state shared between objects that sequential probes do not expose
+		r, ok := raceReplay(repo)
+		sb.WriteString(r)
+		hit = ok
+	}
 	return sb.String(), hit
 }
+
+// scoreProperty: properties whose statements are about scores and severities of vectors; only for these may a score probe
+// stand in as the replay of a refuted obligation.
+var scoreProperty = map[string]bool{"C01": true, "C02": true, "C03": true, "C04": true, "C05": true, "C06": true, "C13": true, "C14": true}
